@@ -647,6 +647,87 @@ func mergeIsStrict(dir string) (bool, error) {
 	return false, fmt.Errorf("no (*Response).Merge in %s", dir)
 }
 
+// readerStackFacts reads three statements off message_reader.go:
+//  [0] discard(): a loop `for X.parent != nil { X.readerStack = X.parent }` comes before the discardN call;
+//  [1] readMessageV2: `X.remain -= <batch size> - int(<limited reader>.N)` (what the codec consumed, not the batch size);
+//  [2] readMessageV1: `remain = sz - (n - int(<limited reader>.N))`.
+func readerStackFacts(file string) ([3]bool, error) {
+	var facts [3]bool
+	fset := token.NewFileSet()
+	f, err := parser.ParseFile(fset, file, nil, 0)
+	if err != nil {
+		return facts, err
+	}
+	mentionsLimitedN := func(e ast.Expr) bool {
+		found := false
+		ast.Inspect(e, func(n ast.Node) bool {
+			if sel, ok := n.(*ast.SelectorExpr); ok && sel.Sel.Name == "N" {
+				found = true
+			}
+			return true
+		})
+		return found
+	}
+	seen := 0
+	for _, d := range f.Decls {
+		fd, ok := d.(*ast.FuncDecl)
+		if !ok || fd.Body == nil || recvName(fd) != "messageSetReader" {
+			continue
+		}
+		switch fd.Name.Name {
+		case "discard":
+			seen++
+			rewound := false
+			ast.Inspect(fd.Body, func(n ast.Node) bool {
+				switch s := n.(type) {
+				case *ast.ForStmt:
+					if be, ok := s.Cond.(*ast.BinaryExpr); ok && be.Op == token.NEQ && strings.HasSuffix(exprString(be.X), ".parent") && exprString(be.Y) == "nil" {
+						for _, st := range s.Body.List {
+							if as, ok := st.(*ast.AssignStmt); ok && len(as.Lhs) == 1 && len(as.Rhs) == 1 &&
+								strings.HasSuffix(exprString(as.Lhs[0]), ".readerStack") && strings.HasSuffix(exprString(as.Rhs[0]), ".parent") {
+								rewound = true
+							}
+						}
+					}
+				case *ast.CallExpr:
+					if sel, ok := s.Fun.(*ast.SelectorExpr); ok && sel.Sel.Name == "discardN" && rewound {
+						facts[0] = true
+					}
+				}
+				return true
+			})
+		case "readMessageV2":
+			seen++
+			ast.Inspect(fd.Body, func(n ast.Node) bool {
+				if as, ok := n.(*ast.AssignStmt); ok && as.Tok == token.SUB_ASSIGN && len(as.Lhs) == 1 && strings.HasSuffix(exprString(as.Lhs[0]), ".remain") {
+					if be, ok := as.Rhs[0].(*ast.BinaryExpr); ok && be.Op == token.SUB && mentionsLimitedN(be.Y) {
+						facts[1] = true
+					}
+				}
+				return true
+			})
+		case "readMessageV1":
+			seen++
+			ast.Inspect(fd.Body, func(n ast.Node) bool {
+				if as, ok := n.(*ast.AssignStmt); ok && as.Tok == token.ASSIGN && len(as.Lhs) == 1 && len(as.Rhs) == 1 {
+					if be, ok := as.Rhs[0].(*ast.BinaryExpr); ok && be.Op == token.SUB {
+						if p, ok := be.Y.(*ast.ParenExpr); ok {
+							if in, ok := p.X.(*ast.BinaryExpr); ok && in.Op == token.SUB && mentionsLimitedN(in.Y) {
+								facts[2] = true
+							}
+						}
+					}
+				}
+				return true
+			})
+		}
+	}
+	if seen != 3 {
+		return facts, fmt.Errorf("message_reader.go: discard / readMessageV2 / readMessageV1 not all found")
+	}
+	return facts, nil
+}
+
 // transportDropsFailed: in the request loop of (*conn).run, an `if err != nil { … }` statement that contains a break /
 // return occurs before the first statement that calls releaseConn.
 func transportDropsFailed(file string) (bool, error) {
@@ -843,7 +924,7 @@ func extractConnLegacy(repo, root string) error {
 	}
 	var b strings.Builder
 	b.WriteString("-- GENERATED by /verif/go/extract (connlegacy) from /repo/*.go — do not edit\n")
-	b.WriteString("import KafkaVerif.Model.ConnOps\nimport KafkaVerif.Model.TransportConnC17\nnamespace KV.Gen.ConnLegacy\nopen KV.ConnOps\n\n")
+	b.WriteString("import KafkaVerif.Model.ConnOps\nimport KafkaVerif.Model.TransportConnC17\nimport KafkaVerif.Model.ReaderStack\nnamespace KV.Gen.ConnLegacy\nopen KV.ConnOps\n\n")
 	b.WriteString("-- `readFrom(r *bufio.Reader, size int)` methods\n")
 	var names []string
 	for _, ty := range requiredReadFrom {
@@ -1012,6 +1093,12 @@ func extractConnLegacy(repo, root string) error {
 		fmt.Fprintf(&b, "-- conn.go ApiVersions (v0): the parse after waitResponse; error code checked after the parse: %v\n", after)
 		fmt.Fprintf(&b, "def apiVersionsParseGen : List Step := [%s]\ndef apiVersionsErrAfter : Bool := %v\n\n", t, after)
 	}
+	// message_reader.go: the three frame-accounting statements of the reader stack
+	rsf, err := readerStackFacts(filepath.Join(repo, "message_reader.go"))
+	if err != nil {
+		return fmt.Errorf("untranslated: %v", err)
+	}
+	fmt.Fprintf(&b, "/-- message_reader.go: discard() rewinds to the root reader; compressed v2 / v1 pushes charge `remain` with what the codec consumed -/\ndef readerStackFacts : KV.ReaderStack.Facts := { discardRewinds := %v, v2AccountsConsumed := %v, v1AccountsConsumed := %v }\n\n", rsf[0], rsf[1], rsf[2])
 	// transport.go (*conn).run: a failed exchange leaves the loop before releaseConn
 	tf, err := transportDropsFailed(filepath.Join(repo, "transport.go"))
 	if err != nil {
